@@ -279,10 +279,13 @@ impl Drv<'_> {
 
 pub fn run(ctx: &mut Ctx) -> Result<(), Stop> {
     // Scenario 0: short mixed history. 1: medium history with bursts across
-    // the 64-id block boundary. 2: fill the whole id space.
+    // the 64-id block boundary. 2: fill the whole id space. 3: a burst of hundreds to a few
+    // thousand requests in flight, a few of them abandoned, then the connection drains -
+    // whole 64-id blocks at a time, or everything that is still awaited - and a second
+    // burst follows: the abandoned requests' ids stay reserved through all of it.
     let scenario = match ctx.tier {
-        Tier::Quick => ctx.weighted("c02.scenario", &[60, 12, 1]),
-        Tier::Thorough => ctx.weighted("c02.scenario", &[40, 12, 2]),
+        Tier::Quick => ctx.weighted("c02.scenario", &[60, 12, 1, 3]),
+        Tier::Thorough => ctx.weighted("c02.scenario", &[40, 12, 2, 4]),
     };
     let mut d = Drv {
         ctx,
@@ -316,6 +319,55 @@ pub fn run(ctx: &mut Ctx) -> Result<(), Stop> {
                 d.hash.u64(r);
                 d.orphan_live(r);
             }
+        }
+    }
+    if scenario == 3 {
+        let burst = [100usize, 577, 600, 700, 1025, 1100, 2100][d.ctx.choose("c02.burst", 7) as usize];
+        d.hash.u64(burst as u64);
+        for _ in 0..burst {
+            d.allocate()?;
+        }
+        d.ctx.probe("burst_in_flight");
+        // Abandon 1..3 requests, preferably among the highest ids.
+        for _ in 0..1 + d.ctx.choose("c02.burst_orphans", 3) {
+            if d.m.live_list.is_empty() {
+                break;
+            }
+            let n = d.m.live_list.len();
+            let i = if d.ctx.choose("c02.burst_orphan_high", 3) > 0 { n - 1 - d.ctx.choose("c02.burst_orphan_top", 64.min(n as u64)) as usize } else { d.ctx.choose("c02.pick_live", n as u64) as usize };
+            let r = d.m.live_list[i];
+            d.hash.u64(r);
+            d.orphan_live(r);
+        }
+        // Drain: everything still awaited, or whole blocks (all awaited ids of a 64-id block).
+        let whole = d.ctx.choose("c02.drain_all", 2) == 0;
+        d.hash.u64(whole as u64);
+        if whole {
+            let mut ids: Vec<i16> = d.m.live.values().copied().collect();
+            ids.sort();
+            if d.ctx.choose("c02.drain_order", 2) == 1 {
+                ids.reverse();
+            }
+            for s in ids {
+                d.lookup(s)?;
+            }
+            d.ctx.probe("connection_drained_but_for_abandoned_requests");
+        } else {
+            let blocks = burst.div_ceil(64);
+            for _ in 0..1 + d.ctx.choose("c02.drain_blocks", 4) {
+                let b = d.ctx.choose("c02.drain_block", blocks as u64) as usize;
+                d.hash.u64(b as u64);
+                for s in (b * 64)..((b + 1) * 64) {
+                    if matches!(d.m.slot[s], Slot::Live(_)) {
+                        d.lookup(s as i16)?;
+                    }
+                }
+            }
+            d.ctx.probe("whole_blocks_drained");
+        }
+        // Second burst: climbs back over every id that is free.
+        for _ in 0..burst + 64 {
+            d.allocate()?;
         }
     }
     const BOUNDARY: [i16; 8] = [63, 64, 65, 32767, 0, 127, 128, 32704];
